@@ -45,7 +45,7 @@ def gen_argv(rng, cmd, files=('in.csv', 'c.tdda', 'o.csv', 'extra')):
         if rng.random() < 0.25:
             items.append([rng.choice(['-t', '--type_checking']), rng.choice(['strict', 'sloppy', 'strict', 'lax'])])
     if cmd == 'detect' and rng.random() < 0.3:
-        items.append(['--output-fields'] + rng.sample(['a', 'b', 'c0', 'x y'], rng.randint(0, 3)))
+        items.append(['--output-fields'] + rng.sample(['a', 'b', 'c0', 'x y', 'a,b', ' qty', 'amount, net', 'b '], rng.randint(0, 3)))
     if rng.random() < 0.12:
         items.append([rng.choice(UNKNOWN)])
     if rng.random() < 0.1 and items:
@@ -144,6 +144,18 @@ class C17(core.Prop):
         fr = cx.gen_frame(rng, fams=FAMS, maxrows=10, maxcols=3)
         vflags = [t for t in gen_argv(rng, 'verify', files=()) if t not in UNKNOWN]
         dflags = [t for t in gen_argv(rng, 'detect', files=()) if t not in UNKNOWN]
+        for c in fr['cols']:
+            if rng.random() < 0.15:
+                # column names a shell user has to quote: commas, blanks at either end
+                c['name'] = rng.choice(['amount, net', ' qty', 'a,b', 'total ', 'x, y ,z']) + c['name'][-1]
+        if fr['cols'] and rng.random() < 0.3:
+            # original columns to write, named explicitly (the library is given the same names directly)
+            k = rng.randint(1, len(fr['cols']))
+            ofields = [c['name'] for c in rng.sample(fr['cols'], k)]
+            drop = {'--output-fields', '--no-output-fields', '--no-original-fields', 'a', 'b', 'c0', 'x y', 'a,b', ' qty', 'amount, net', 'b '}
+            dflags = [t for t in dflags if t not in drop]
+            return {'kind': 'files', 'frame': fr, 'fmt': rng.choice(['csv', 'parquet']), 'rex': rng.random() < 0.4,
+                    'vflags': vflags, 'dflags': dflags, 'ofields': ofields, 'pseed': rng.randrange(10 ** 6), 'subprocess': False}
         return {'kind': 'files', 'frame': fr, 'fmt': rng.choice(['csv', 'parquet']), 'rex': rng.random() < 0.4,
                 'vflags': vflags, 'dflags': dflags, 'pseed': rng.randrange(10 ** 6), 'subprocess': False}
 
@@ -294,7 +306,12 @@ class C17(core.Prop):
                 for o in (o1, o2):
                     if os.path.exists(o):
                         os.remove(o)
-                rc, out, err, v = self._cli(['detect'] + case['dflags'] + [path, 'c.tdda', o1])
+                tail = []
+                if case.get('ofields'):
+                    tail = ['--output-fields'] + list(case['ofields'])
+                    dkw = dict(dkw, output_fields=list(case['ofields']))
+                    self.count('detect_with_named_output_fields')
+                rc, out, err, v = self._cli(['detect'] + case['dflags'] + [path, 'c.tdda', o1] + tail)
                 with contextlib.redirect_stderr(io.StringIO()), contextlib.redirect_stdout(io.StringIO()):
                     try:
                         lv = detect_df(load_df(path), 'c.tdda', outpath=o2, rownumber_is_index=False, **dkw)
